@@ -54,6 +54,27 @@ def comp_info(gen: ModelGen, ent) -> Dict[str, Any]:
     }
 
 
+def rename_port(gen: ModelGen, ent, enc: dict, old: str, new: str) -> Dict[str, Any]:
+    """Give a port of the encapsulee another name, in the model and in every place of the
+    configuration encoding that names it; returns the new comp_info."""
+    _fqn, comp, _node = ent
+    for port in comp.ports:
+        if port.name == old:
+            port.name = new
+    for side in ('provides', 'requires'):
+        for sem in ('sts', 'mts'):
+            sel = enc[side][sem]
+            if isinstance(sel, list):
+                enc[side][sem] = sorted(new if n == old else n for n in sel)
+    if enc.get('multiclient') and enc['multiclient']['port'] == old:
+        enc['multiclient']['port'] = new
+    if hasattr(comp, 'bindings'):
+        for b in comp.bindings:
+            b.left = (new if b.left[0] == old else b.left[0], b.left[1])
+            b.right = (new if b.right[0] == old else b.right[0], b.right[1])
+    return comp_info(gen, ent)
+
+
 def rand_side(rng: random.Random, ports: List[str], uniform: Optional[str] = None) -> dict:
     """A valid selection pair for one side.  `uniform` forces all ports to one semantics
     (needed on the provides side)."""
